@@ -445,3 +445,39 @@ func EnclosingTypenameOp(s *Schema, tag string) *Def {
 	}
 	return nil
 }
+
+// FlattenTypenameDefs: `flatten: true` on a field that selects an explicit `__typename` next to
+// its one fragment spread.  genqlient must refuse it (the field has a selection of its own that
+// the fragment's type cannot carry); accepting it would drop `__typename` from the response.
+func FlattenTypenameDefs(s *Schema, tag string, abstract bool) []*Def {
+	for _, f := range s.FieldsOf("Query") {
+		td := s.Get(f.Type.Base())
+		if td == nil || (abstract && td.Kind != "INTERFACE") || (!abstract && td.Kind != "OBJECT") {
+			continue
+		}
+		req := false
+		for _, a := range f.Args {
+			if a.Type.NonNull && a.Default == "" {
+				req = true
+			}
+		}
+		if req {
+			continue
+		}
+		leaf := ""
+		for _, lf := range td.Fields {
+			if s.IsLeaf(lf.Type.Base()) && len(lf.Args) == 0 {
+				leaf = lf.Name
+			}
+		}
+		if leaf == "" {
+			continue
+		}
+		fr := "Hz" + tag + "F"
+		return []*Def{
+			{Kind: "fragment", Name: fr, Text: fmt.Sprintf("fragment %s on %s {\n  %s\n}\n", fr, td.Name, leaf)},
+			{Kind: "query", Name: "Hz" + tag + "Q", Text: fmt.Sprintf("query Hz%sQ {\n  # @genqlient(flatten: true)\n  %s {\n    __typename\n    ...%s\n  }\n}\n", tag, f.Name, fr)},
+		}
+	}
+	return nil
+}
